@@ -10,7 +10,13 @@ RULE = ("bond graphs without self-loops and without 3-membered rings in which ev
         "direction, with duplicate listings. Per graph: enumeration on two listings, typing of bonds/angles/dihedrals "
         "with random UFF types (plausible-by-degree, random friendly pool, random whole table), exclusion sets "
         "(none / too small / atoms of 1-2 terms / random subset / everything), term lists as enumerated, shuffled and with "
-        "individual terms listed backwards, a renamed+permuted second run, retype. "
+        "individual terms listed backwards, a renamed+permuted second run, the SAME atoms typed twice in one process with "
+        "the term list in two orders, the parameter functions called key after key with their default arguments "
+        "(forwards and backwards) against fresh explicit-argument evaluations, retype. UFF modes include assignments "
+        "that MIX guessed bond orders in one structure (C_R/N_R next to C_3/H_/O_3, C_2 pairs) and toluene-like "
+        "aromatic molecules (ring + methyl/hydroxyl/vinyl). Expected coefficient texts are evaluated in a fresh state "
+        "(every argument explicit), re-evaluated after all assign calls, and cross-checked against the independent "
+        "UFF formula oracle of the C18 harness. "
         "Thorough: additionally EVERY triangle-free graph on <= 6 labelled vertices with all degrees >= 1. "
         "Non-trivial = distinct input whose graph has a branch (degree >= 3) or a ring.")
 
@@ -181,6 +187,48 @@ def rand_graph(rng, nmax, kind=None):
     return edges, kind
 
 
+def g_aromatic(rng):
+    """a six-membered aromatic ring (C_R, sometimes one N_R) whose atoms carry H_, methyl (C_3 with three H_), hydroxyl
+    (O_3-H_), vinyl (C_2=C_2 with H_) or a second ring; returns (edges, per-atom UFF types), vertices renumbered at random"""
+    edges = [(i, (i + 1) % 6) for i in range(6)]
+    uff = ["C_R"] * 6
+    if rng.random() < 0.3:
+        uff[rng.randrange(6)] = "N_R"
+    n = 6
+
+    def add(to, ty):
+        nonlocal n
+        edges.append((to, n))
+        uff.append(ty)
+        n += 1
+        return n - 1
+    subs = [rng.choice(["H", "H", "H", "methyl", "hydroxyl", "vinyl", "none"]) for _ in range(6)]
+    if "methyl" not in subs and "vinyl" not in subs:
+        subs[rng.randrange(6)] = rng.choice(["methyl", "vinyl"])
+    for i, sub in enumerate(subs):
+        if sub == "H":
+            add(i, "H_")
+        elif sub == "methyl":
+            c = add(i, "C_3")
+            for _ in range(3):
+                add(c, "H_")
+        elif sub == "hydroxyl":
+            add(add(i, "O_3"), "H_")
+        elif sub == "vinyl":
+            c1 = add(i, "C_2")
+            add(c1, "H_")
+            c2 = add(c1, "C_2")
+            add(c2, "H_")
+            add(c2, "H_")
+    p = list(range(n))
+    rng.shuffle(p)
+    edges = sorted(set(norm((p[a], p[b])) for a, b in edges))
+    types = [None] * n
+    for a in range(n):
+        types[p[a]] = uff[a]
+    return edges, types
+
+
 def listing(rng, edges, dup=None):
     """the edge set as a bond list: random order and direction, optionally with duplicate listings"""
     l = [e if rng.random() < 0.5 else (e[1], e[0]) for e in edges]
@@ -290,31 +338,122 @@ def real_retype(types):
 _TEXT = {}
 
 
+def _fresh_params(kind, seq, m=None):
+    """parameter tuple of one UFF sequence from the real functions with EVERY argument given explicitly and freshly
+    built for this call (bond orders from the real guess_bond_order, new list objects): nothing is taken from default
+    arguments or from any earlier call, so the value cannot depend on call history"""
+    ru = _uff()
+    if kind == "bond":
+        return ru.bond_params(seq[0], seq[1], bond_order=ru.guess_bond_order(seq[0], seq[1], None), bond_order_rules=None)
+    if kind == "angle":
+        bo = [ru.guess_bond_order(seq[0], seq[1], None), ru.guess_bond_order(seq[1], seq[2], None)]
+        given = list(bo)
+        p = ru.angle_params(seq[0], seq[1], seq[2], bond_orders=bo, bond_order_rules=None)
+        if bo != given:
+            raise AssertionError("angle_params changed the bond_orders list it was given")
+        return p
+    if kind == "pair":
+        return ru.pair_coeffs(seq[0])
+    return ru.dihedral_params(seq[0], seq[1], seq[2], seq[3], num_dihedrals_about_bond=m,
+                              bond_order=ru.guess_bond_order(seq[1], seq[2], None), bond_order_rules=None)
+
+
+def _format(kind, p, seq, m=None):
+    """the way assign_* / assign_pair_coeffs write a parameter tuple"""
+    if kind == "bond":
+        return "%10.6f %10.6f # %s %s" % (*p, *seq)
+    if kind == "angle":
+        return _uff().angle2lammpsdat((*p, "%s %s %s" % tuple(seq)))
+    if kind == "pair":
+        return "%10.6f %10.6f # %s" % (*p, seq[0])
+    return None if p is None else "%s %10.6f %d %d # %s %s %s %s M=%d" % (*p, *seq, m)
+
+
+def fresh_text(kind, seq, m=None):
+    """uncached: see key_text"""
+    with core.quiet():
+        try:
+            return _format(kind, _fresh_params(kind, seq, m), seq, m)
+        except AssertionError:
+            raise
+        except Exception as e:  # noqa
+            if kind == "dihedral" and str(e).startswith("we don't know how to handle this dihedral"):
+                return False
+            raise
+
+
+def default_text(kind, seq, m=None):
+    """the same text through the functions' own DEFAULT arguments (the way assign_* calls them)"""
+    ru = _uff()
+    with core.quiet():
+        try:
+            if kind == "bond":
+                p = ru.bond_params(seq[0], seq[1])
+            elif kind == "angle":
+                p = ru.angle_params(seq[0], seq[1], seq[2])
+            elif kind == "pair":
+                p = ru.pair_coeffs(seq[0])
+            else:
+                p = ru.dihedral_params(seq[0], seq[1], seq[2], seq[3], m)
+            return _format(kind, p, seq, m)
+        except Exception as e:  # noqa
+            if kind == "dihedral" and str(e).startswith("we don't know how to handle this dihedral"):
+                return False
+            raise
+
+
 def key_text(kind, seq, m=None):
-    """coefficient text for a UFF sequence from the real bond_params / angle_params / dihedral_params, formatted the
-    way the assign functions write it; None = no torsion defined; False = the combination is not supported (raises)"""
+    """coefficient text for a UFF sequence from the real bond_params / angle_params / dihedral_params evaluated in a
+    FRESH state (explicit arguments, see _fresh_params), formatted the way the assign functions write it;
+    None = no torsion defined; False = the combination is not supported (raises)"""
     k = (kind, tuple(seq), m)
     if k in _TEXT:
         return _TEXT[k]
-    ru = _uff()
-    with core.quiet():
-        if kind == "bond":
-            v = "%10.6f %10.6f # %s %s" % (*ru.bond_params(*seq), *seq)
-        elif kind == "angle":
-            v = ru.angle2lammpsdat((*ru.angle_params(*seq), "%s %s %s" % tuple(seq)))
-        elif kind == "pair":
-            v = "%10.6f %10.6f # %s" % (*ru.pair_coeffs(seq[0]), seq[0])
-        else:
-            try:
-                p = ru.dihedral_params(*seq, m)
-                v = None if p is None else "%s %10.6f %d %d # %s %s %s %s M=%d" % (*p, *seq, m)
-            except Exception as e:  # noqa
-                if str(e).startswith("we don't know how to handle this dihedral"):
-                    v = False
-                else:
-                    raise
+    v = fresh_text(kind, list(seq), m)
     _TEXT[k] = v
     return v
+
+
+def independent_ok(kind, seq, m, text):
+    """the numbers of a coefficient text vs. the INDEPENDENT evaluation of the UFF formulas (oracle of the C18 harness:
+    own table reader, own formulas, own bond-order guess).  True / False, or None when that oracle cannot evaluate the
+    combination (then only the real-function text is demanded)."""
+    from . import c18
+    coef = text.split(" # ")[0]
+    verdicts = []
+    for s in (list(seq), list(seq)[::-1]):
+        try:
+            if kind == "bond":
+                k, r = c18.o_bond(s[0], s[1], c18.o_bond_order(s[0], s[1]))
+                verdicts.append(c18._coef_close("bond " + coef, {"style": "bond", "v": [k, r]}))
+            elif kind == "angle":
+                st, v = c18.o_angle(s[0], s[1], s[2], c18.o_bond_order(s[0], s[1]), c18.o_bond_order(s[1], s[2]))
+                verdicts.append(c18._coef_close(coef, {"style": st, "v": v}))
+            else:
+                _, want = c18.o_torsion(s[0], s[1], s[2], s[3], m, c18.o_bond_order(s[1], s[2]))
+                if "v" not in want:
+                    return None
+                verdicts.append(c18._coef_close(coef, want))
+        except Exception:  # noqa
+            return None
+    return any(verdicts)
+
+
+def oracle_param_sequence(kind, keys):
+    """call-history independence of the parameter functions as assign_* uses them (default arguments): evaluating the
+    keys one after the other, forwards and then backwards, must give for every key the text of its fresh evaluation"""
+    want = [fresh_text(kind, list(s), m) for s, m in keys]
+    order = list(range(len(keys))) + list(range(len(keys) - 1, -1, -1))
+    for i in order:
+        s, m = keys[i]
+        got = default_text(kind, list(s), m)
+        if got != want[i]:
+            return ("%s parameters of %s%s depend on the calls made before: %r after other sequences, %r evaluated on its own"
+                    % (kind, " ".join(s), "" if m is None else " M=%d" % m, got, want[i]))
+    again = [fresh_text(kind, list(s), m) for s, m in keys]
+    if again != want:
+        return "%s parameters with explicit arguments changed between two evaluations (state carried between calls)" % kind
+    return None
 
 
 def central(t):
@@ -476,7 +615,46 @@ def oracle_assign(kind, terms, uff, exclude, r):
         if r["coeffs"][r["types"][i]] not in ok:
             return ("%s %s (%s%s): coefficient text %r is not the text of the parameters of its sequence %r"
                     % (kind, list(t), " ".join(seq), "" if mu is None else " M=%d" % mu, r["coeffs"][r["types"][i]], ok[0]))
+        if independent_ok(kind, seq, mu, r["coeffs"][r["types"][i]]) is False:
+            return ("%s %s (%s%s): coefficient text %r is not what the UFF formulas give for its sequence (independent "
+                    "evaluation)" % (kind, list(t), " ".join(seq), "" if mu is None else " M=%d" % mu,
+                                     r["coeffs"][r["types"][i]]))
     return None
+
+
+def real_assign_reordered(kind, terms, uff, exclude, perm):
+    """assign_*_types TWICE on the SAME Atoms object within this process: first with the term list as given, then with
+    the list re-ordered by `perm`; returns the two results"""
+    import numpy as np
+    from mofun import Atoms
+    ru = _uff()
+    n = len(uff)
+    out = []
+    with core.quiet():
+        a = Atoms(elements=["C"] * n, positions=np.zeros((n, 3)))
+    for order in (list(range(len(terms))), list(perm)):
+        def f():
+            setattr(a, PLURAL[kind], np.array([tuple(terms[i]) for i in order]) if order else [])
+            getattr(ru, "assign_%s_types" % kind)(a, list(uff), exclude=None if exclude is None else set(exclude))
+            return {"terms": rows(getattr(a, PLURAL[kind])), "types": [int(t) for t in getattr(a, kind + "_types")],
+                    "coeffs": [str(x) for x in getattr(a, kind + "_type_coeffs")]}
+        out.append(_res(f))
+    return out
+
+
+def oracle_reorder(kind, terms, uff, exclude, r1, r2):
+    if ("ok" in r1) != ("ok" in r2):
+        return "assign_%s_types outcome (%s vs %s) changes when the term list is re-ordered" % (
+            kind, r1.get("err", "ok"), r2.get("err", "ok"))
+    if "ok" not in r1:
+        return None
+    if term_texts(r1) != term_texts(r2):
+        a, b = dict(term_texts(r1)), dict(term_texts(r2))
+        t = [t for t in a if b.get(t) != a[t]]
+        return ("per-term %s coefficients change when the term list is re-ordered (same atoms, same process)%s"
+                % (kind, ": %s has %r, then %r" % (list(t[0]), a[t[0]], b.get(t[0])) if t else ""))
+    # each of the two runs must by itself satisfy the typing property
+    return oracle_assign(kind, terms, uff, exclude, r1) or oracle_assign(kind, terms, uff, exclude, r2)
 
 
 def term_texts(r):
@@ -550,7 +728,8 @@ def oracle_typekey(t, r):
 # ------------------------------------------------------------------ generators of typing inputs
 
 def rand_uff(rng, edges, n, mode=None):
-    mode = mode or rng.choice(["plausible", "plausible", "plausible", "friendly", "friendly", "table"])
+    mode = mode or rng.choice(["plausible", "plausible", "plausible", "friendly", "friendly", "table",
+                               "mixed-bo", "mixed-bo", "mixed-bo"])
     deg = [0] * n
     for a, b in edges:
         deg[a] += 1
@@ -564,6 +743,13 @@ def rand_uff(rng, edges, n, mode=None):
         else:
             metal = METAL
         out = [rng.choice(pools[d]) if d in pools else rng.choice(metal) for d in deg]
+    elif mode == "mixed-bo":
+        # guessed bond orders 1.5 (C_R-C_R, N_R-N_R), 2 (C_2-C_2, N_2-N_2, O_2-O_2) and 1 (anything with H_/C_3/N_3/O_3,
+        # unequal pairs) side by side in one structure
+        inner = rng.choice([["C_R", "C_R", "C_R", "C_3"], ["C_R", "N_R", "C_3", "O_3"], ["C_2", "C_2", "C_3", "C_R"],
+                            ["C_R", "C_R", "C_2", "C_2", "N_3"], ["N_R", "N_R", "C_R", "O_3"], ["C_2", "N_2", "N_2", "C_3"]])
+        outer = rng.choice([["H_", "H_", "C_3"], ["H_", "O_2", "O_2"], ["H_", "C_R", "F_"], ["O_2", "C_2", "H_"]])
+        out = [rng.choice(outer) if d == 1 else rng.choice(inner) for d in deg]
     elif mode == "friendly":
         pool = rng.sample(FRIENDLY, rng.randint(2, 6))
         out = [rng.choice(pool) for _ in range(n)]
@@ -654,7 +840,49 @@ def check_assign(ctx, bt, kind, terms, uff, exclude, nontrivial, rng=None):
         # the second run is also a typing case of its own for the tie
         bt.tie({"op": "assign", "kind": kind, "terms": t2, "uff": u2, "exclude": e2,
                 "params": param_table(kind, t2, u2)}, r2)
+        # the SAME atoms typed twice within this process, the term list in two different orders
+        perm2 = list(range(len(terms)))[::-1] if rng.random() < 0.5 else rng.sample(range(len(terms)), len(terms))
+        inp3 = {"op": "assign_reorder", "kind": kind, "terms": terms, "uff": uff, "exclude": exclude, "perm": perm2}
+        ra, rb = real_assign_reordered(kind, terms, uff, exclude, perm2)
+        ctx.case(inp3, nontrivial=nontrivial)
+        ctx.count("reorder:" + kind)
+        bad = oracle_reorder(kind, terms, uff, exclude, ra, rb)
+        if bad:
+            ctx.fail(bad, inp3, observed={"first": ra, "second": rb}, tags=["reorder", kind])
+        # the parameter functions, called the way assign_* calls them (default arguments), one key after the other
+        keys = structure_keys(kind, terms, uff)
+        if len(keys) >= 2:
+            inp4 = {"op": "param_sequence", "kind": kind, "keys": [[list(sq), m] for sq, m in keys]}
+            ctx.case(inp4, nontrivial=len(set(guessed_orders(kind, keys))) >= 2)
+            ctx.count("param-sequence:" + kind)
+            if len(set(guessed_orders(kind, keys))) >= 2:
+                ctx.count("param-sequence-mixed-bond-orders:" + kind)
+            bad = oracle_param_sequence(kind, keys)
+            if bad:
+                ctx.fail(bad, inp4, tags=["param-sequence", kind])
     return r
+
+
+def structure_keys(kind, terms, uff):
+    """the distinct (sequence, multiplicity) keys of a structure's terms, first-seen order, as listed"""
+    mult = multiplicity(terms) if kind == "dihedral" else None
+    out = []
+    for t in terms:
+        k = (tuple(uff[a] for a in t), mult[central(t)] if kind == "dihedral" else None)
+        if k not in out:
+            out.append(k)
+    return out[:12]
+
+
+def guessed_orders(kind, keys):
+    """the bond orders the (independent) guess gives to the bonds of the keys: a structure mixes bond orders when this
+    has more than one value"""
+    from . import c18
+    out = []
+    for sq, _ in keys:
+        pairs = {"bond": [(0, 1)], "angle": [(0, 1), (1, 2)], "dihedral": [(1, 2)]}[kind]
+        out.append(tuple(c18.o_bond_order(sq[i], sq[j]) for i, j in pairs))
+    return out
 
 
 def check_retype(ctx, bt, types, oracle=True):
@@ -681,7 +909,7 @@ def check_typekey(ctx, bt, t):
     bt.tie(inp, r)
 
 
-def graph_case(ctx, bt, edges, kind, typing=True):
+def graph_case(ctx, bt, edges, kind, typing=True, given_uff=None):
     rng = ctx.rng
     nt = is_nontrivial(edges)
     ctx.count("graph:" + kind)
@@ -700,7 +928,10 @@ def graph_case(ctx, bt, edges, kind, typing=True):
             ctx.fail(bad, inp, observed={"first": e1[k], "second": e2[k]}, tags=["enum"])
     if not typing:
         return
-    uff, mode = rand_uff(rng, edges, n)
+    if given_uff is not None:
+        uff, mode = list(given_uff), "given"
+    else:
+        uff, mode = rand_uff(rng, edges, n)
     ctx.count("uff:" + mode)
     bond_terms = [list(e) if rng.random() < 0.5 else [e[1], e[0]] for e in edges]
     rng.shuffle(bond_terms)
@@ -751,7 +982,12 @@ def run(ctx, oracle_only=False):
     for _ in range(ctx.n(400, 4000)):
         edges, kind = rand_graph(rng, rng.choice([6, 9, nmax]))
         graph_case(ctx, bt, edges, kind)
+    # molecules that mix guessed bond orders (aromatic ring + methyl / hydroxyl / vinyl substituents, toluene-like)
+    for _ in range(ctx.n(60, 600)):
+        edges, types = g_aromatic(rng)
+        graph_case(ctx, bt, edges, "aromatic", given_uff=types)
     typekey_cases(ctx, bt, ctx.n(300, 3000))
+    state_check(ctx)
     # types outside retype's domain (element not in the mass table): compared with the model only
     for s in (["Du", "C_3"], ["C_R", "Lw6+3", "H_"]):
         check_retype(ctx, bt, s, oracle=False)
@@ -768,6 +1004,22 @@ def run(ctx, oracle_only=False):
     for inp, r, m in zip(bt.ops, bt.impls, models):
         ctx.compare(inp["op"], inp, r, m)
     ctx.notes.append("tie: enumeration order, adjacency/edge order and typing compared EXACTLY (same order) with the model")
+
+
+def state_check(ctx):
+    """every expected text used by the oracle so far was computed (in a fresh state) BEFORE or between the assign_*
+    calls; computed again now, AFTER all of them, it must be the same"""
+    bad = 0
+    for (kind, seq, m), v in list(_TEXT.items()):
+        again = fresh_text(kind, list(seq), m)
+        if again != v:
+            bad += 1
+            ctx.fail("%s parameters of %s changed during the run: %r before, %r after (state carried between calls)"
+                     % (kind, " ".join(seq), v, again),
+                     {"op": "param_sequence", "kind": kind, "keys": [[list(seq), m]]}, tags=["param-sequence", kind])
+            if bad >= 3:
+                break
+    ctx.count("expected-texts-recomputed", len(_TEXT))
 
 
 def search(ctx):
@@ -825,6 +1077,12 @@ def replay(ctx, rec):
         t2, u2, e2 = renamed(terms, uff, ex, inp["sigma"], inp["perm"])
         r2 = real_assign(k, t2, u2, e2)
         return oracle_rename(k, terms, uff, ex, inp["sigma"], inp["perm"], r1, r2) is None
+    if op == "assign_reorder":
+        k, terms, uff, ex = inp["kind"], inp["terms"], inp["uff"], inp["exclude"]
+        ra, rb = real_assign_reordered(k, terms, uff, ex, inp["perm"])
+        return oracle_reorder(k, terms, uff, ex, ra, rb) is None
+    if op == "param_sequence":
+        return oracle_param_sequence(inp["kind"], [(tuple(sq), m) for sq, m in inp["keys"]]) is None
     if op == "retype":
         return oracle_retype(inp["types"], real_retype(inp["types"])) is None
     if op == "typekey":
